@@ -262,6 +262,8 @@ class Collector(object):
         for i in xrange(len(items)):
             if items[i][1] == global_docnum:
                 items.pop(i)
+                # The document is no longer part of the results
+                self.docset.discard(global_docnum)
                 return
         raise KeyError(global_docnum)
 
@@ -493,6 +495,8 @@ class TopCollector(ScoredCollector):
     def remove(self, global_docnum):
         negated = 0 - global_docnum
         items = self.items
+        # The document was counted when it was collected
+        self.total -= 1
 
         # Remove the document if it's on the list (it may not be since
         # TopCollector forgets documents that don't make the top N list)
